@@ -29,6 +29,21 @@ class Crash(Exception):
 TYPES = {"list": list, "tuple": tuple, "str": str, "int": int, "float": float, "dict": dict, "bool": bool, "set": set}
 
 
+class ClassRef:
+    """a class of the program as a first-class value: equal to itself, not None, truthy"""
+    def __init__(self, name):
+        self.name = name
+
+    def __eq__(self, other):
+        return isinstance(other, ClassRef) and other.name == self.name
+
+    def __hash__(self):
+        return hash(("ClassRef", self.name))
+
+    def __repr__(self):
+        return "<class %s>" % self.name
+
+
 class FuncRef:
     def __init__(self, func):
         self.func = func
@@ -64,6 +79,8 @@ class Evaluator:
                 return TYPES[t[1]]
             if t[1] in self.sx.func.mod.funcs:
                 return FuncRef(self.sx.func.mod.funcs[t[1]])
+            if t[1] in getattr(self.sx.func.mod, "classes", {}) or t[1] in getattr(self.sx, "prog", type("x", (), {"classes": {}})).classes:
+                return ClassRef(t[1])          # a class used as a value (an entry of a table of node classes): only its identity matters
             raise EvalUnsupported("free symbol %s has no witness value" % t[1])
         if h == "apply":
             fv = self.ev(t[1], loc)
